@@ -400,6 +400,36 @@ func gen(g *hx.Gen) {
 			graphCase("G", anyRep(), n, cleanEdges(n, es))
 		}
 	}
+	// sizes across the thresholds 128 and 256 (degree and vertex counters in a byte, doubling
+	// capacities): a hub of degree n-1 and a thin random graph, in a random provenance
+	thr := []int{127, 128, 129}
+	if g.Thorough() {
+		thr = append(thr, 255, 256, 257, 511, 513)
+	}
+	for _, n := range thr {
+		var star []edge
+		for v := 1; v < n; v++ {
+			star = append(star, edge{v, 0})
+		}
+		graphCase("G", anyRep(), n, star)
+		graphCase("G", "w", n, star)
+		for c := 0; c < g.Pick(2, 4); c++ {
+			graphCase("G", anyRep(), n, randGraph(r, n, 3, n))
+		}
+		// the hub at the top: vertex n-1 joined to everything
+		var top []edge
+		for u := 0; u < n-1; u++ {
+			top = append(top, edge{n - 1, u})
+		}
+		graphCase("G", anyRep(), n, top)
+	}
+	if !g.Thorough() {
+		var star []edge
+		for v := 1; v < 257; v++ {
+			star = append(star, edge{v, 0})
+		}
+		graphCase("G", "s", 257, star)
+	}
 	// stub graphs: the 4-byte header at sizes where every byte of it is used, the 8-byte header
 	// of sparse6, and the sizes around the boundaries; edgeless and with a few edges
 	sizes := []int{63, 64, 2047, 2048, 4095, 4096, 4097, 5000, 258047, 258048, 1000000, 16777215, 16777216}
